@@ -142,3 +142,213 @@ class FixSubTableOverFlows(Contract):
         return bool(r) and a._calls == [(inner_old, inner_new)] and a._lookup.SubTableCount == n + 1
 
     ensures = [prop("new-subtable-directly-behind-the-split-one", lambda a, old, r: FixSubTableOverFlows._post(a, r))]
+
+
+# -- GPOS splits ----------------------------------------------------------------------------------
+
+def _cov(ot, glyphs):
+    c = ot.Coverage()
+    c.glyphs = list(glyphs)
+    return c
+
+
+@contract
+class SplitSinglePos(Contract):
+    """splitSinglePos (format 2): every covered glyph keeps its Value in exactly one of the two
+    parts; coverage and value arrays stay paired and counted; format 1 or a single glyph is refused."""
+    module = "fontTools.ttLib.tables.otTables"
+    qualname = "splitSinglePos"
+    props = ("C06",)
+    shadow_mode = "real"
+    variants = (("f2", 2), ("f2", 3), ("f2", 5), ("f2", 1), ("f1", 3))
+    level = "PF"
+
+    def args(self, S, variant):
+        from fontTools.ttLib.tables import otTables as ot
+        fmt, n = variant
+        st = ot.SinglePos()
+        st.Format = 2 if fmt == "f2" else 1
+        st.ValueFormat = 4
+        st.Coverage = _cov(ot, KEYS[:n])
+        st.Value = ["V" + k for k in KEYS[:n]] if fmt == "f2" else "V"
+        st.ValueCount = n
+        return dict(oldSubTable=st, newSubTable=ot.SinglePos(), overflowRecord=None, _n=n, _fmt=fmt)
+
+    @staticmethod
+    def _post(a, r):
+        o, nw = a.oldSubTable, a.newSubTable
+        if a._fmt == "f1" or a._n <= 1:
+            return r is False and o.Coverage.glyphs == KEYS[:a._n]
+        pairs = list(zip(o.Coverage.glyphs, o.Value)) + list(zip(nw.Coverage.glyphs, nw.Value))
+        return (r is True and sorted(pairs) == [(k, "V" + k) for k in KEYS[:a._n]] and o.Coverage.glyphs and nw.Coverage.glyphs
+                and o.ValueCount == len(o.Value) == len(o.Coverage.glyphs) and nw.ValueCount == len(nw.Value) == len(nw.Coverage.glyphs)
+                and nw.Format == 2 and nw.ValueFormat == 4)
+
+    ensures = [prop("every-glyph-keeps-its-value-in-exactly-one-part", lambda a, old, r: SplitSinglePos._post(a, r))]
+
+
+@contract
+class SplitPairPosFormat2(Contract):
+    """splitPairPos, class-based format: for EVERY assignment of first-glyph classes (symbolic,
+    0..3, one covered glyph left to the implicit class 0) the value looked up for a (first glyph,
+    second class) pair is the same before and after, in exactly one of the two parts - class
+    numbers of the moved half are renumbered consistently in ClassDef1 and Class1Record."""
+    module = "fontTools.ttLib.tables.otTables"
+    qualname = "splitPairPos"
+    props = ("C06",)
+    shadow_mode = "real"
+    variants = (4, 3, 2)
+    level = "PF"
+    max_paths = 20000
+
+    def args(self, S, variant):
+        from fontTools.ttLib.tables import otTables as ot
+        nclass = variant
+        st = ot.PairPos()
+        st.Format = 2
+        st.ValueFormat1, st.ValueFormat2 = 4, 0
+        glyphs = ["a", "b", "c", "z"]
+        st.Coverage = _cov(ot, glyphs)
+        st.ClassDef1 = ot.ClassDef()
+        classes = {g: S.int("class_" + g, 1, nclass - 1) for g in glyphs[:3]} if nclass > 1 else {}
+        st.ClassDef1.classDefs = dict(classes)
+        st.ClassDef2 = ot.ClassDef()
+        st.ClassDef2.classDefs = {"x": 1}
+        st.Class1Record = []
+        for c1 in range(nclass):
+            rec = ot.Class1Record()
+            rec.Class2Record = ["val_%d_%d" % (c1, c2) for c2 in range(2)]
+            st.Class1Record.append(rec)
+        st.Class1Count, st.Class2Count = nclass, 2
+        return dict(oldSubTable=st, newSubTable=ot.PairPos(), overflowRecord=None, _glyphs=glyphs, _classes=classes, _nclass=nclass)
+
+    @staticmethod
+    def _lookup(st, g):
+        """Class1Record row used for first glyph g by an OpenType reader, or None when not covered"""
+        if g not in st.Coverage.glyphs:
+            return None
+        k = st.ClassDef1.classDefs.get(g, 0)
+        kc = k if isinstance(k, int) else k.concrete()
+        if kc is None:
+            kc = k.__index__()
+        return st.Class1Record[kc].Class2Record
+
+    @staticmethod
+    def _post(a, r):
+        o, nw = a.oldSubTable, a.newSubTable
+        if not r:
+            return False
+        for g in a._glyphs:
+            c = a._classes.get(g, 0)
+            cc = c if isinstance(c, int) else c.__index__()
+            want = ["val_%d_%d" % (cc, c2) for c2 in range(2)]
+            rows = [x for x in (SplitPairPosFormat2._lookup(o, g), SplitPairPosFormat2._lookup(nw, g)) if x is not None]
+            if rows != [want]:
+                return False
+        return (o.Class1Count == len(o.Class1Record) >= 1 and nw.Class1Count == len(nw.Class1Record) >= 1
+                and nw.Class2Count == 2 and nw.ClassDef2 is o.ClassDef2 and nw.Format == 2)
+
+    ensures = [prop("pair-values-unchanged-in-exactly-one-part", lambda a, old, r: SplitPairPosFormat2._post(a, r))]
+
+
+@contract
+class SplitPairPosFormat1(Contract):
+    module = "fontTools.ttLib.tables.otTables"
+    qualname = "splitPairPos"
+    props = ("C06",)
+    shadow_mode = "real"
+    variants = (2, 3, 5, 1)
+    level = "PF"
+
+    def args(self, S, variant):
+        from fontTools.ttLib.tables import otTables as ot
+        n = variant
+        st = ot.PairPos()
+        st.Format = 1
+        st.ValueFormat1, st.ValueFormat2 = 4, 0
+        st.Coverage = _cov(ot, KEYS[:n])
+        st.PairSet = ["PS" + k for k in KEYS[:n]]
+        st.PairSetCount = n
+        return dict(oldSubTable=st, newSubTable=ot.PairPos(), overflowRecord=None, _n=n)
+
+    ensures = [prop("every-first-glyph-keeps-its-pair-set-in-exactly-one-part", lambda a, old, r: (
+        (r is False and a.oldSubTable.PairSet == ["PS" + k for k in KEYS[:a._n]]) if a._n < 2 else (
+            bool(r) and sorted(list(zip(a.oldSubTable.Coverage.glyphs, a.oldSubTable.PairSet)) + list(zip(a.newSubTable.Coverage.glyphs, a.newSubTable.PairSet)))
+            == [(k, "PS" + k) for k in KEYS[:a._n]]
+            and a.oldSubTable.PairSetCount == len(a.oldSubTable.PairSet) >= 1 and a.newSubTable.PairSetCount == len(a.newSubTable.PairSet) >= 1)))]
+
+
+@contract
+class SplitMarkBasePos(Contract):
+    """splitMarkBasePos: for every assignment of mark classes (symbolic) every (mark glyph, base
+    glyph) pair finds, in exactly one of the two parts, the same mark record and the same base
+    anchor as before (mark classes of the moved half renumbered together with the BaseAnchor
+    columns); fewer than two classes are refused."""
+    module = "fontTools.ttLib.tables.otTables"
+    qualname = "splitMarkBasePos"
+    props = ("C06",)
+    shadow_mode = "real"
+    variants = (2, 3, 4, 1)
+    level = "PF"
+    max_paths = 20000
+
+    def args(self, S, variant):
+        from fontTools.ttLib.tables import otTables as ot
+        ncls = variant
+        st = ot.MarkBasePos()
+        st.Format = 1
+        marks = ["m0", "m1", "m2"]
+        st.MarkCoverage = _cov(ot, marks)
+        st.BaseCoverage = _cov(ot, ["B0", "B1"])
+        st.ClassCount = ncls
+        st.MarkArray = ot.MarkArray()
+        st.MarkArray.MarkRecord = []
+        classes = []
+        for i, m in enumerate(marks):
+            mr = ot.MarkRecord()
+            mr.Class = S.int("class_" + m, 0, ncls - 1)
+            mr.MarkAnchor = "anchor_" + m
+            classes.append(mr.Class)
+            st.MarkArray.MarkRecord.append(mr)
+        st.MarkArray.MarkCount = 3
+        st.BaseArray = ot.BaseArray()
+        st.BaseArray.BaseRecord = []
+        for b in range(2):
+            br = ot.BaseRecord()
+            br.BaseAnchor = ["base%d_class%d" % (b, k) for k in range(ncls)]
+            st.BaseArray.BaseRecord.append(br)
+        st.BaseArray.BaseCount = 2
+        return dict(oldSubTable=st, newSubTable=ot.MarkBasePos(), overflowRecord=None, _marks=marks, _classes=classes, _ncls=ncls)
+
+    @staticmethod
+    def _attach(st, m, b):
+        if m not in st.MarkCoverage.glyphs:
+            return None
+        mr = st.MarkArray.MarkRecord[st.MarkCoverage.glyphs.index(m)]
+        k = mr.Class if isinstance(mr.Class, int) else mr.Class.__index__()
+        if k >= st.ClassCount:
+            return ("class out of range",)
+        return (mr.MarkAnchor, st.BaseArray.BaseRecord[b].BaseAnchor[k])
+
+    @staticmethod
+    def _post(a, old, r):
+        o, nw = a.oldSubTable, a.newSubTable
+        if a._ncls < 2:
+            return r is False
+        if not r:
+            return False
+        for m, c in zip(a._marks, old._classes):
+            k = c if isinstance(c, int) else c.__index__()
+            for b in range(2):
+                want = ("anchor_" + m, "base%d_class%d" % (b, k))
+                got = [x for x in (SplitMarkBasePos._attach(o, m, b), SplitMarkBasePos._attach(nw, m, b)) if x is not None]
+                if got != [want]:
+                    return False
+        return (o.ClassCount + nw.ClassCount == a._ncls and o.ClassCount >= 1 and nw.ClassCount >= 1
+                and all(len(br.BaseAnchor) == o.ClassCount for br in o.BaseArray.BaseRecord)
+                and all(len(br.BaseAnchor) == nw.ClassCount for br in nw.BaseArray.BaseRecord)
+                and o.MarkArray.MarkCount == len(o.MarkArray.MarkRecord) == len(o.MarkCoverage.glyphs)
+                and nw.MarkArray.MarkCount == len(nw.MarkArray.MarkRecord) == len(nw.MarkCoverage.glyphs)
+                and nw.BaseCoverage.glyphs == o.BaseCoverage.glyphs)
+
+    ensures = [prop("every-mark-base-attachment-unchanged-in-exactly-one-part", lambda a, old, r: SplitMarkBasePos._post(a, old, r))]
